@@ -366,7 +366,7 @@ def drive(rec):
     # an observation for TLC's domain guard: does the surface lie inside the search bounds in EVERY direction (with a margin)?
     # Where it leaves them in a narrow cone only, whether a pose notices depends on where its grid rays point.
     t["inside"] = True
-    if rec["kind"] == "stockholder" and ref is not None and any(ps["exc"] == "ValueError" for ps in t["poses"][1:]):
+    if rec["kind"] == "stockholder" and any(ps["exc"] == "ValueError" for ps in t["poses"]):
         try:
             t["inside"] = bool(_surface_inside_bounds(base, tuple(rec["bounds"])))
         except Exception:
